@@ -325,6 +325,21 @@ static int pipe_get(struct sk_obj *o, unsigned char *b, int n)
   return n;
 }
 
+/* packet mode */
+static void pk_push(struct sk_obj *o, int n) { if (o->direct && n > 0 && o->pkn < 128) { o->pk[(o->pkh + o->pkn) % 128] = (unsigned short) n; o->pkn++; } }
+static int pk_room(struct sk_obj *o) { return !o->direct || o->pkn < 128; }
+/* one read(2) of up to n bytes */
+static int pipe_read(struct sk_obj *o, unsigned char *b, int n)
+{
+  if (!o->direct || o->pkn == 0) return pipe_get(o, b, n);
+  int plen = o->pk[o->pkh]; o->pkh = (o->pkh + 1) % 128; o->pkn--;
+  int take = n < plen ? n : plen;
+  int got = pipe_get(o, b, take);
+  unsigned char junk;
+  for (int i = take; i < plen; i++) pipe_get(o, &junk, 1);
+  return got;
+}
+
 int sk_child_write(int pi, int fd, int n, int tag, long *offp)
 {
   struct sk_proc *p = &K->proc[pi];
@@ -336,11 +351,12 @@ int sk_child_write(int pi, int fd, int n, int tag, long *offp)
   if (o->kind != OK_PIPE) { *offp += n; return n; }
   if (o->readers == 0) return -2;
   int done = 0;
-  while (done < n && o->len < o->cap) {
+  while (done < n && o->len < o->cap && pk_room(o)) {
     unsigned char c = sk_pattern(tag, *offp);
     pipe_put(o, &c, 1);
     (*offp)++; done++;
   }
+  pk_push(o, done);
   return done;
 }
 
@@ -353,6 +369,12 @@ int sk_child_read(int pi, int fd, int n)
   if (f->acc == 1) return -1;
   if (o->kind != OK_PIPE) { p->stdin_eof = 1; return 0; }
   int done = 0;
+  if (o->direct && o->pkn > 0 && n > 0) {   /* one read of a packet-mode pipe */
+    unsigned char tmp[4096];
+    int got = pipe_read(o, tmp, n > 4096 ? 4096 : n);
+    for (int i = 0; i < got; i++) { if (tmp[i] != sk_pattern(0, p->stdin_read)) p->stdin_bad = 1; p->stdin_read++; }
+    done = got;
+  } else
   while (done < n && o->len > 0) {
     unsigned char c;
     pipe_get(o, &c, 1);
@@ -414,6 +436,7 @@ int __wrap_pipe2(int pair[2], int flags)
   struct sk_proc *p = ME;
   if (flags & O_CLOEXEC) { p->fd[pair[0]].cloexec = 1; p->fd[pair[1]].cloexec = 1; }
   if (flags & O_NONBLOCK) { K->ofd[p->fd[pair[0]].ofd].nonblock = 1; K->ofd[p->fd[pair[1]].ofd].nonblock = 1; }
+  if (flags & O_DIRECT) K->obj[K->ofd[p->fd[pair[0]].ofd].obj].direct = 1;
   return 0;
 }
 
@@ -453,7 +476,7 @@ ssize_t __wrap_read(int fd, void *buf, size_t n)
   int first = 1;
   for (;;) {
     if (o->len > 0 || n == 0) {
-      int got = n == 0 ? 0 : pipe_get(o, buf, n > (size_t) INT_MAX ? INT_MAX : (int) n);
+      int got = n == 0 ? 0 : pipe_read(o, buf, n > (size_t) INT_MAX ? INT_MAX : (int) n);
       sk_logev(LK_READ, fd, (int) n, 0, got);
       return got;
     }
@@ -488,7 +511,7 @@ ssize_t __wrap_write(int fd, const void *buf, size_t n)
     }
     if (n == 0) break;
     size_t left = n - done;
-    done += (size_t) pipe_put(o, (const unsigned char *) buf + done, left > (size_t) INT_MAX ? INT_MAX : (int) left);
+    { int put_ = pk_room(o) ? pipe_put(o, (const unsigned char *) buf + done, left > (size_t) INT_MAX ? INT_MAX : (left > 4096 && o->direct ? 4096 : (int) left)) : 0; pk_push(o, put_); done += (size_t) put_; }
     if (done == n) break;
     if (f->nonblock) {
       if (done > 0) break;
